@@ -63,5 +63,11 @@ CHECKS = {
         "text": "TLC proves for the code-shaped B64Stream model that finish() output equals Base64!Encode for every input of <= 5 (thorough 7) bytes over {0x00,0x41,0xFF} and EVERY partition into writes (incl. empty writes), that reading to the end yields Decode(text) for every read-size schedule (1..4 bytes per underlying read) and drain schedule, that an error arises only for text whose length is not a multiple of four and that such text is never accepted silently. Thousands of real runs (lengths 0..70 and around 96/128/192/256/768/4096, random partitions, 12 read schedules, 14 destination sizes, truncated/padding-heavy/arbitrary text) are judged by TLC against the same closed forms.",
         "note": "Trusts Base64.tla as the RFC 4648 reference (prototype cross-checked against CPython's codec during design).",
     },
+    "C07": {
+        "level": "exploration",
+        "technique": "TLA+ matrix-of-parent-positions specification of views (reusing the slice spec); TLC-generated view programs replayed over four ownership routes; TLC judge incl. iter_mut addresses as parent offsets",
+        "text": "TLC generates thousands of view programs (8 parent shapes incl. zero extents; chains of up to three view/transpose steps; every selector form with bounds beyond the axis; single steps exhaustive over the sampled selector set). Each is executed through the real trait methods on an owned nested view, a shared reference, a mutable reference and as_mut(), and TLC judges size, row-major iteration, get at every position incl. one past each edge, the parent after fill / clear / fill_with / insert (six insertion points incl. beyond the window) / set, map, and that iter_mut hands out exactly the window cells' addresses, each once (addresses logged as parent offsets).",
+        "note": "UB-freedom of the unsafe iterator proper is Miri's domain, not decided here; only its observable contract is.",
+    },
 }
 
